@@ -16,6 +16,9 @@ import (
 
 var errC20 = errors.New("injected writer failure")
 
+// c20Work counts executions of the counting filter and tag (see c20Engine).
+var c20Work int
+
 const c20IncName = "c20_included.liquid"
 
 var c20Templates = []string{
@@ -63,6 +66,11 @@ var c20Templates = []string{
 	"{% for i in l %}{{ i }}{% continue %}never{% endfor %}",
 	"{% for i in l %}{% tablerow j in l cols: 2 %}{{ j }}{% break %}{% endtablerow %}{% if i == 2 %}{% break %}{% endif %}{% endfor %}",
 	"{% tablerow i in l cols: 2 %}{% for j in l %}{% continue %}{% endfor %}{% continue %}{% endtablerow %}",
+	// work that would go on if rendering did not stop: 40 filter / tag executions, each followed by a write
+	"{% for i in (1..40) %}{{ i | cnt }},{% endfor %}end",
+	"{% for i in (1..40) %}{% cnttag %}{{ i }}{% endfor %}",
+	"{% tablerow i in (1..40) cols: 3 %}{{ i | cnt }}{% endtablerow %}",
+	"{% for i in (1..8) %}{% for j in (1..5) %}{{ j | cnt }}{% endfor %}{% capture c %}{{ i | cnt }}{% endcapture %}{{ c }}{% endfor %}",
 }
 
 // c20Skeletons: every subset of hyphen positions of a few block skeletons (the trim writer holds
@@ -113,6 +121,9 @@ var c20All []string
 func c20Engine() *liquid.Engine {
 	e := liquid.NewEngine()
 	e.RegisterTag("mytag", func(c render.Context) (string, error) { return "TAG", nil })
+	// work the render does is counted: after the writer has failed, (almost) no further filter or tag may run
+	e.RegisterFilter("cnt", func(v any) any { c20Work++; return v })
+	e.RegisterTag("cnttag", func(c render.Context) (string, error) { c20Work++; return "t", nil })
 	e.RegisterBlock("myblock", func(c render.Context) (string, error) {
 		s, err := c.InnerString()
 		return "<" + s + ">", err
@@ -147,6 +158,7 @@ type faultWriter struct {
 	failedAt int // call index of the first failure, -1 before
 	after    int // Write calls after the first failure
 	got      bytes.Buffer
+	workAt   int    // c20Work when the first failure happened
 	before   []byte // everything accepted up to and including the failing call
 }
 
@@ -167,6 +179,7 @@ func (w *faultWriter) Write(b []byte) (int, error) {
 		w.got.Write(b[:n])
 		if w.failedAt < 0 {
 			w.failedAt = i
+			w.workAt = c20Work
 			w.before = append([]byte{}, w.got.Bytes()...)
 		}
 		if w.nilErr {
@@ -317,6 +330,10 @@ func c20Families(tier string) []explore.Family {
 		// "rendering stops": no further nodes are rendered. Held-back text may still be flushed once per
 		// enclosing block on the way out (nesting depth <= 3 here), so up to 4 further Write attempts are
 		// not "continuing to render"; a render that keeps going makes W-k-1 of them.
+		// ... and it does no further work: the node in flight may finish (and a capture inside it), nothing more
+		if more := c20Work - fw.workAt; more > 6 {
+			r.Violation("keeps-rendering", desc(), "rendering stops after the writer failed", fmt.Sprintf("%d more filter/tag executions after the failing write", more))
+		}
 		if c.forever && fw.after > 4 {
 			r.Violation("keeps-writing", desc(), "rendering stops after the writer failed", fmt.Sprintf("%d more Write calls", fw.after))
 		}
@@ -333,7 +350,7 @@ func init() {
 	explore.Register(&explore.Prop{
 		ID:    "C20",
 		Level: "fault_enumeration",
-		Rule: "every subset of hyphen positions of 6 block skeletons (if, for, raw inside if, capture, unless/else, tablerow: ~1000 templates) and 42 templates (eight with loops whose iterations end by break or continue; four of them with 100..600 writes or a 70 KB write) covering every tag (incl. tablerow, include, capture, nested loops, cycle, registered tag and block), trim-marker placements, empty output and long text; a fault-free render records the W Write calls and their sizes; then for EVERY k in 0..W-1 the writer fails on call k accepting 0 bytes or a strict prefix (all prefix lengths for calls <=8 bytes (quick) / <=64 (thorough), else 1, len/2, len-1), failing once or forever, through FRender and ParseAndFRender, returning a sentinel error - and, for the hand-written templates, io.ErrShortWrite, io.EOF, io.ErrClosedPipe and a wrapping error as well; plus short writes with a nil error (totality only); " +
+		Rule: "every subset of hyphen positions of 6 block skeletons (if, for, raw inside if, capture, unless/else, tablerow: ~1000 templates) and 46 templates (four that count the filter/tag executions after the failing write; eight with loops whose iterations end by break or continue; four of them with 100..600 writes or a 70 KB write) covering every tag (incl. tablerow, include, capture, nested loops, cycle, registered tag and block), trim-marker placements, empty output and long text; a fault-free render records the W Write calls and their sizes; then for EVERY k in 0..W-1 the writer fails on call k accepting 0 bytes or a strict prefix (all prefix lengths for calls <=8 bytes (quick) / <=64 (thorough), else 1, len/2, len-1), failing once or forever, through FRender and ParseAndFRender, returning a sentinel error - and, for the hand-written templates, io.ErrShortWrite, io.EOF, io.ErrClosedPipe and a wrapping error as well; plus short writes with a nil error (totality only); " +
 			"class = (template, fault kind, partial accept); distinct_nontrivial counts distinct classes",
 		Assumptions: []string{"a writer that returns n < len(p) with a nil error violates io.Writer; only absence of a panic is required there"},
 		Setup:       func(tier string) { c20.eng = c20Engine(); c20Build(tier) },
